@@ -55,6 +55,9 @@ class SinkReader:
 
         sink = Datagroup()
         for i, (key, unit) in enumerate(zip(key_list, unit_list)):
+            if isinstance(select, (list, tuple)) and key not in select:
+                # Only load the variables requested by the user
+                continue
             sink[key] = Array(values=sink_data[:, i] * unit.magnitude, unit=unit.units)
         utils.make_vector_arrays(sink, ndim=meta["ndim"])
         return sink
